@@ -429,11 +429,19 @@ class VariantReach:
             else:
                 env.pop(dst["l"], None)
 
-    def step(self, bb, envt):
+    def step(self, bb, envt, inject=None):
+        """`inject` = (local, variant): the local holds that variant from its (last) definition in this block on"""
         body = self.body
         env = dict(envt)
         blk = body.blocks[bb]
-        for s in blk["s"]:
+        inj_at = None
+        if inject is not None:
+            for i, s in enumerate(blk["s"]):
+                if s["k"] == "assign" and s["place"]["l"] == inject[0] and not s["place"]["p"]:
+                    inj_at = i
+        for i, s in enumerate(blk["s"]):
+            if inj_at is not None and i == inj_at + 1:
+                env[inject[0]] = tuple(inject[1])
             if s["k"] == "setdiscr":
                 env.pop(s["place"]["l"], None)
                 continue
@@ -459,6 +467,8 @@ class VariantReach:
                 env[dst["l"]] = v
             else:
                 env.pop(dst["l"], None)
+        if inj_at is not None and inj_at == len(blk["s"]) - 1:
+            env[inject[0]] = tuple(inject[1])
         t = blk["t"]
         nxt = list(self.succs[bb])
         if t["k"] == "call":
@@ -513,9 +523,10 @@ class VariantReach:
         avoid = set(avoid)
         seen = set()
         work = []
-        for n, et in self.step(def_bb, ()):
+        for n, et in self.step(def_bb, (), inject=(local, variant)):
             env = dict(et)
-            env[local] = tuple(variant)
+            if local not in env and not any(s["k"] == "assign" and s["place"]["l"] == local and not s["place"]["p"] for s in self.body.blocks[def_bb]["s"]):
+                env[local] = tuple(variant)        # defined by the block's terminator (a call)
             st = (n, tuple(sorted(env.items())))
             if n not in avoid and st not in seen:
                 seen.add(st)
